@@ -1,6 +1,6 @@
 (* C07 — contracts pay out exactly once; revisions keep totals; storage proofs. *)
 From Coq Require Import ZArith List Bool.
-From Sia Require Import Prim.Result Prim.Tok Policy.Model Ledger.Types Ledger.Mid Ledger.Validate Ledger.Apply Ledger.Proofs.
+From Sia Require Import Prim.Result Prim.Tok Policy.Model Ledger.Types Ledger.Mid Ledger.Validate Ledger.Apply Ledger.Proofs Merkle.Rhp Merkle.StorageProof.
 Import ListNotations.
 Open Scope Z_scope.
 
@@ -22,3 +22,27 @@ Theorem C07_leaf_index_in_range : forall H filesize window fcid, 0 < filesize ->
   0 <= sp_leaf_index H filesize window fcid < filesize / 64 + (if filesize mod 64 =? 0 then 0 else 1).
 Proof. exact leaf_index_in_range. Qed.
 Print Assumptions C07_leaf_index_in_range.
+
+(* ---- storage proofs: honest proofs built from the real data are always accepted ---- *)
+(* for a file of any size (any number of 64-byte leaves, the last one possibly partial), the siblings of leaf i along its
+   path in the plainly defined Merkle tree over the leaf hashes verify against the plain root: v2 verifier ... *)
+Theorem C07_storage_proof_v2_complete : forall H (L : list bytes) filesize i d, 0 < filesize < 2 ^ 64 ->
+  Z.of_nat (length L) = sp_num_leaves filesize -> (i < length L)%nat ->
+  sp_root_v2 H (nth i L d) (Z.of_nat i) filesize (sp_prove H (length L) L i) = mroot H L.
+Proof. exact storage_proof_v2_complete. Qed.
+Print Assumptions C07_storage_proof_v2_complete.
+
+(* ... and the v1 verifier, whatever bytes of the leaf the era hashes (the leaf hash is the padded-leaf hash) *)
+Theorem C07_storage_proof_v1_complete : forall H (L : list bytes) filesize i d leaf, 0 < filesize < 2 ^ 64 ->
+  Z.of_nat (length L) = sp_num_leaves filesize -> (i < length L)%nat -> nth i L d = H (0%N :: pad64 leaf) ->
+  sp_root_v1 H (Z.of_nat i) filesize leaf (sp_prove H (length L) L i) = mroot H L.
+Proof. exact storage_proof_v1_complete. Qed.
+Print Assumptions C07_storage_proof_v1_complete.
+
+(* the verifier's rule reconstructs the path of leaf i among n leaves: the honest proof folds to the plain root and is at
+   least as long as the merge height with the last leaf *)
+Theorem C07_storage_proof_path : forall H fuel (L : list bytes) i d, (i < length L)%nat -> (length L <= fuel)%nat ->
+  let sth := blen (Z.lxor (Z.of_nat i) (Z.of_nat (length L) - 1)) in
+  fold_rule H (nth i L d) (Z.of_nat i) sth (sp_prove H fuel L i) = mroot H L /\ sth <= Z.of_nat (length (sp_prove H fuel L i)).
+Proof. exact sp_prove_verifies. Qed.
+Print Assumptions C07_storage_proof_path.
